@@ -44,6 +44,19 @@ Proof. intro c. unfold spaces, blank. now rewrite scalar_bytes_utf8_len. Qed.
 (* the mirror computes the reference lexer                             *)
 (* ------------------------------------------------------------------ *)
 
+Lemma pp_code_slash : forall off c r,
+  pp Code off (47 :: c :: r) =
+  if c =? 47 then emit [32; 32] (pp LineComment (off + 1 + utf8_len c) r)
+  else if c =? 42 then emit [32; 32] (pp (BlockComment off) (off + 1 + utf8_len c) r)
+  else emit [47] (pp Code (off + 1) (c :: r)).
+Proof. reflexivity. Qed.
+
+Lemma pp_block_star : forall o off c r,
+  pp (BlockComment o) off (42 :: c :: r) =
+  if c =? 47 then emit [32; 32] (pp Code (off + 1 + utf8_len c) r)
+  else emit [32] (pp (BlockComment o) (off + 1) (c :: r)).
+Proof. reflexivity. Qed.
+
 (* One statement per automaton state; the pending `/` and the pending `*` of
    the automaton correspond to the look-ahead of the loop. *)
 Lemma pp_refines_all : forall l off,
@@ -77,25 +90,839 @@ Proof.
         rewrite emit_put, Hlen, IHb, spaces_blank. reflexivity. }
     repeat split; try assumption.
     + (* DSlash *)
-      intros at_ Hoff. subst off. cbn [pp lex_from dstep]. change (47 =? 47) with true. cbv iota.
-      change (utf8_len 47) with 1%nat.
+      intros at_ Hoff. subst off. rewrite pp_code_slash. cbn [lex_from dstep].
       destruct (N.eqb_spec c 47) as [->|Hc47]; cbn [fst snd].
-      * change (utf8_len 47) with 1%nat. change (scalar_bytes 47) with 1%nat in *.
-        rewrite emit_put, IHl. reflexivity.
+      * change (utf8_len 47) with (scalar_bytes 47). rewrite emit_put, IHl. reflexivity.
       * destruct (N.eqb_spec c 42) as [->|Hc42]; cbn [fst snd].
-        -- change (utf8_len 42) with 1%nat. change (scalar_bytes 42) with 1%nat in *.
-           rewrite emit_put, IHb. reflexivity.
-        -- rewrite !emit_put, put_put, Hlen, IHc. reflexivity.
+        -- change (utf8_len 42) with (scalar_bytes 42). rewrite emit_put, IHb. reflexivity.
+        -- rewrite emit_put, HC. cbn [lex_from dstep].
+           rewrite (proj2 (N.eqb_neq c 47) Hc47). cbn [fst snd].
+           rewrite put_put. reflexivity.
     + (* DStar *)
-      intros o Hoff. cbn [pp lex_from dstep]. change (42 =? 42) with true. cbv iota.
-      change (utf8_len 42) with 1%nat. replace (off - 1 + 1)%nat with off by lia.
+      intros o Hoff. rewrite pp_block_star. replace (off - 1 + 1)%nat with off by lia.
+      cbn [lex_from dstep].
       destruct (N.eqb_spec c 47) as [->|Hc47]; cbn [fst snd].
-      * change (utf8_len 47) with 1%nat. change (scalar_bytes 47) with 1%nat in *.
-        rewrite emit_put, IHc, put_put. reflexivity.
-      * rewrite emit_put. change (blank 42) with [32]. f_equal.
-        rewrite HB. cbn [lex_from dstep].
+      * change (utf8_len 47) with (scalar_bytes 47). rewrite emit_put, IHc, put_put. reflexivity.
+      * rewrite emit_put. f_equal. rewrite HB. cbn [lex_from dstep].
         destruct (N.eqb_spec c 42) as [->|Hc42]; cbn [fst snd]; reflexivity.
 Qed.
 
 Theorem preprocess_refines_lexer : forall s, preprocess s = lex_spec s.
 Proof. intro s. exact (proj1 (pp_refines_all s 0%nat)). Qed.
+
+(* ------------------------------------------------------------------ *)
+(* the automaton, compositionally                                      *)
+(* ------------------------------------------------------------------ *)
+
+Lemma text_bytes_app : forall a b, text_bytes (a ++ b) = (text_bytes a + text_bytes b)%nat.
+Proof. induction a as [|c r IH]; intro b; simpl; [reflexivity|]. fold (text_bytes (r ++ b)) (text_bytes r). rewrite IH. lia. Qed.
+
+Lemma text_bytes_cons : forall c r, text_bytes (c :: r) = (scalar_bytes c + text_bytes r)%nat.
+Proof. reflexivity. Qed.
+
+Lemma state_after_app : forall a b q off,
+  state_after q off (a ++ b) = state_after (state_after q off a) (off + text_bytes a) b.
+Proof.
+  induction a as [|c r IH]; intros b q off; simpl.
+  - now rewrite Nat.add_0_r.
+  - fold (text_bytes r). rewrite IH. now rewrite Nat.add_assoc.
+Qed.
+
+Lemma output_after_app : forall a b q off,
+  output_after q off (a ++ b) =
+  output_after q off a ++ output_after (state_after q off a) (off + text_bytes a) b.
+Proof.
+  induction a as [|c r IH]; intros b q off; simpl.
+  - now rewrite Nat.add_0_r.
+  - fold (text_bytes r). rewrite IH, <- app_assoc. now rewrite Nat.add_assoc.
+Qed.
+
+Lemma lex_from_app : forall a b q off,
+  lex_from q off (a ++ b) =
+  put (output_after q off a) (lex_from (state_after q off a) (off + text_bytes a) b).
+Proof.
+  induction a as [|c r IH]; intros b q off; simpl.
+  - now rewrite put_nil, Nat.add_0_r.
+  - fold (text_bytes r). rewrite IH, put_put. now rewrite Nat.add_assoc.
+Qed.
+
+Lemma lex_from_finish : forall l q off,
+  lex_from q off l = put (output_after q off l) (dfinish (state_after q off l)).
+Proof. intros l q off. rewrite <- (app_nil_r l) at 1. now rewrite lex_from_app. Qed.
+
+(* ------------------------------------------------------------------ *)
+(* two-scalar sequences                                                *)
+(* ------------------------------------------------------------------ *)
+
+Lemma has_pair_cons : forall x y c r,
+  has_pair x y (c :: r) <-> (c = x /\ exists r', r = y :: r') \/ has_pair x y r.
+Proof.
+  intros x y c r. split.
+  - intros (u & v & H). destruct u as [|c' u]; simpl in H; injection H as -> H.
+    + left. split; [reflexivity|]. now exists v.
+    + right. now exists u, v.
+  - intros [(-> & r' & ->)|(u & v & ->)].
+    + now exists [], r'.
+    + now exists (c :: u), v.
+Qed.
+
+Lemma has_pair_nil : forall x y, ~ has_pair x y [].
+Proof. intros x y (u & v & H). destruct u; discriminate. Qed.
+
+Lemma ends_with_cons : forall x c r, r <> [] -> (ends_with x (c :: r) <-> ends_with x r).
+Proof.
+  intros x c r Hr. split.
+  - intros (u & H). destruct u as [|c' u]; simpl in H; injection H as -> H.
+    + now destruct Hr.
+    + now exists u.
+  - intros (u & ->). now exists (c :: u).
+Qed.
+
+Lemma plain_code_tail : forall c r, plain_code (c :: r) -> plain_code r.
+Proof.
+  intros c r (H1 & H2 & H3). repeat split.
+  - intro H. apply H1, has_pair_cons. now right.
+  - intro H. apply H2, has_pair_cons. now right.
+  - intros (u & ->). apply H3. now exists (c :: u).
+Qed.
+
+Lemma plain_code_slash : forall r, plain_code (47 :: r) ->
+  exists c1 r', r = c1 :: r' /\ c1 <> 47 /\ c1 <> 42.
+Proof.
+  intros r (H1 & H2 & H3). destruct r as [|c1 r'].
+  - destruct H3. now exists [].
+  - exists c1, r'. repeat split.
+    + intros ->. apply H1. now exists [], r'.
+    + intros ->. apply H2. now exists [], r'.
+Qed.
+
+(* a `/` pending in code followed by a scalar that cannot complete an opener *)
+Lemma slash_then_other : forall at_ off c r, c <> 47 -> c <> 42 ->
+  state_after (DSlash at_) off (c :: r) = state_after DCode off (c :: r) /\
+  output_after (DSlash at_) off (c :: r) = 47 :: output_after DCode off (c :: r).
+Proof.
+  intros at_ off c r H47 H42. cbn [state_after output_after dstep].
+  rewrite (proj2 (N.eqb_neq c 47) H47), (proj2 (N.eqb_neq c 42) H42). cbn [fst snd]. split; reflexivity.
+Qed.
+
+Lemma state_after_cons : forall q off c r,
+  state_after q off (c :: r) = state_after (fst (dstep q off c)) (off + scalar_bytes c) r.
+Proof. reflexivity. Qed.
+
+Lemma output_after_cons : forall q off c r,
+  output_after q off (c :: r) =
+  snd (dstep q off c) ++ output_after (fst (dstep q off c)) (off + scalar_bytes c) r.
+Proof. reflexivity. Qed.
+
+Lemma plain_code_run : forall a off, plain_code a ->
+  state_after DCode off a = DCode /\ output_after DCode off a = a.
+Proof.
+  induction a as [|c r IH]; intros off Hp; [split; reflexivity|].
+  pose proof (plain_code_tail _ _ Hp) as Hr.
+  destruct (N.eq_dec c 47) as [->|Hc].
+  - destruct (plain_code_slash _ Hp) as (c1 & r' & -> & H47 & H42).
+    rewrite state_after_cons, output_after_cons. cbn [dstep]. change (47 =? 47) with true. cbn [fst snd app].
+    destruct (slash_then_other off (off + scalar_bytes 47) c1 r' H47 H42) as (E1 & E2).
+    rewrite E1, E2. destruct (IH (off + scalar_bytes 47)%nat Hr) as (I1 & I2).
+    rewrite I1, I2. split; reflexivity.
+  - cbn [state_after output_after dstep]. rewrite (proj2 (N.eqb_neq c 47) Hc). cbn [fst snd].
+    destruct (IH (off + scalar_bytes c)%nat Hr) as (I1 & I2). rewrite I1, I2. split; reflexivity.
+Qed.
+
+Lemma blanks_cons : forall c r, blanks (c :: r) = spaces (scalar_bytes c) ++ blanks r.
+Proof. reflexivity. Qed.
+
+Lemma blanks_app : forall a b, blanks (a ++ b) = blanks a ++ blanks b.
+Proof. intros a b. unfold blanks. now rewrite flat_map_app. Qed.
+
+Lemma no_newline_run : forall c off, no_newline c ->
+  state_after DLine off c = DLine /\ output_after DLine off c = blanks c.
+Proof.
+  induction c as [|x r IH]; intros off Hn; [split; reflexivity|].
+  assert (Hx : x <> 10) by (intros ->; apply Hn; now left).
+  assert (Hr : no_newline r) by (intro H; apply Hn; now right).
+  cbn [state_after output_after dstep]. rewrite (proj2 (N.eqb_neq x 10) Hx). cbn [fst snd].
+  destruct (IH (off + scalar_bytes x)%nat Hr) as (I1 & I2). rewrite I1, I2, blanks_cons. split; reflexivity.
+Qed.
+
+Definition in_block (o : nat) (q : dstate) : Prop := q = DBlock o \/ q = DStar o.
+
+Lemma no_close_run : forall c o q off, in_block o q ->
+  (q = DStar o -> forall r, c <> 47 :: r) -> no_close c ->
+  in_block o (state_after q off c) /\ output_after q off c = blanks c.
+Proof.
+  induction c as [|x r IH]; intros o q off Hq Hhead Hn; [split; [assumption|reflexivity]|].
+  assert (Hr : no_close r) by (intro H; apply Hn, has_pair_cons; now right).
+  assert (Hnext : x = 42 -> forall r', r <> 47 :: r').
+  { intros -> r' ->. apply Hn. now exists [], r'. }
+  cbn [state_after output_after]. rewrite blanks_cons.
+  destruct Hq as [->| ->]; cbn [dstep].
+  - destruct (N.eqb_spec x 42) as [->|Hx]; cbn [fst snd].
+    + destruct (IH o (DStar o) (off + scalar_bytes 42)%nat) as (I1 & I2); auto.
+      * now right.
+      * rewrite I2. split; [assumption|reflexivity].
+    + destruct (IH o (DBlock o) (off + scalar_bytes x)%nat) as (I1 & I2); auto.
+      * now left.
+      * intro H; discriminate H.
+      * rewrite I2. split; [assumption|reflexivity].
+  - destruct (N.eqb_spec x 47) as [->|Hx47]; [exfalso; now apply (Hhead eq_refl r)|].
+    destruct (N.eqb_spec x 42) as [->|Hx]; cbn [fst snd].
+    + destruct (IH o (DStar o) (off + scalar_bytes 42)%nat) as (I1 & I2); auto.
+      * now right.
+      * rewrite I2. split; [assumption|reflexivity].
+    + destruct (IH o (DBlock o) (off + scalar_bytes x)%nat) as (I1 & I2); auto.
+      * now left.
+      * intro H; discriminate H.
+      * rewrite I2. split; [assumption|reflexivity].
+Qed.
+
+Lemma close_run : forall o q off, in_block o q ->
+  state_after q off [42; 47] = DCode /\ output_after q off [42; 47] = [32; 32].
+Proof. intros o q off [->| ->]; split; reflexivity. Qed.
+
+(* ------------------------------------------------------------------ *)
+(* declarative characterisation of the reference lexer                 *)
+(* ------------------------------------------------------------------ *)
+
+(* moving the start offset only moves the error *)
+Definition shift (n : nat) (m : outcome (list N)) : outcome (list N) :=
+  match m with
+  | Err (EOther z) => Err (EOther (Z.of_nat n + z))
+  | other => other
+  end.
+
+Lemma after_put_shift : forall pre out m, after pre out m = put out (shift (text_bytes pre) m).
+Proof. intros pre out [t|[| |z]|s|]; reflexivity. Qed.
+
+Lemma dfinish_shift_code : shift 0 (dfinish DCode) = dfinish DCode.
+Proof. reflexivity. Qed.
+
+(* offsets only matter through the opener recorded in the state *)
+Definition shift_state (n : nat) (q : dstate) : dstate :=
+  match q with
+  | DSlash a => DSlash (n + a)
+  | DBlock o => DBlock (n + o)
+  | DStar o => DStar (n + o)
+  | other => other
+  end.
+
+Lemma dstep_shift : forall n q off c,
+  dstep (shift_state n q) (n + off) c = (shift_state n (fst (dstep q off c)), snd (dstep q off c)).
+Proof.
+  intros n q off c. destruct q; cbn [dstep shift_state];
+    repeat match goal with |- context [if ?b then _ else _] => destruct b end; reflexivity.
+Qed.
+
+Lemma shift_put : forall n out m, shift n (put out m) = put out (shift n m).
+Proof. intros n out [t|[| |z]|s|]; reflexivity. Qed.
+
+Lemma lex_from_shift : forall l n q off,
+  lex_from (shift_state n q) (n + off) l = shift n (lex_from q off l).
+Proof.
+  induction l as [|c r IH]; intros n q off.
+  - destruct q; cbn [lex_from shift_state dfinish]; unfold UnclosedAt, shift; try reflexivity;
+      now rewrite Nat2Z.inj_add.
+  - cbn [lex_from]. rewrite dstep_shift. cbn [fst snd].
+    replace (n + off + scalar_bytes c)%nat with (n + (off + scalar_bytes c))%nat by lia.
+    now rewrite IH, shift_put.
+Qed.
+
+Lemma lex_code_shift : forall l n, lex_from DCode n l = shift n (lex_spec l).
+Proof.
+  intros l n. unfold lex_spec. rewrite <- (lex_from_shift l n DCode 0). cbn [shift_state].
+  now rewrite Nat.add_0_r.
+Qed.
+
+(* code without comment openers is copied *)
+Lemma lex_prefix : forall a rest, plain_code a ->
+  lex_spec (a ++ rest) = after a a (lex_spec rest).
+Proof.
+  intros a rest Hp. unfold lex_spec at 1. rewrite lex_from_app.
+  destruct (plain_code_run a 0%nat Hp) as (-> & ->).
+  rewrite after_put_shift. cbn [Nat.add]. now rewrite lex_code_shift.
+Qed.
+
+Lemma lex_plain : forall s, ~ has_pair 47 47 s -> ~ has_pair 47 42 s -> lex_spec s = Ok s.
+Proof.
+  intros s H1 H2.
+  destruct (list_eq_dec N.eq_dec s []) as [->|Hne]; [reflexivity|].
+  destruct (exists_last Hne) as (u & x & ->).
+  destruct (N.eq_dec x 47) as [->|Hx].
+  - assert (Hu : plain_code u).
+    { repeat split.
+      - intros (a & b & ->). apply H1. exists a, (b ++ [47]). now rewrite <- !app_assoc.
+      - intros (a & b & ->). apply H2. exists a, (b ++ [47]). now rewrite <- !app_assoc.
+      - intros (w & ->). apply H1. exists w, []. now rewrite <- app_assoc. }
+    rewrite (lex_prefix u [47] Hu). reflexivity.
+  - assert (Hp : plain_code (u ++ [x])).
+    { repeat split; try assumption. intros (w & H). apply app_inj_tail in H. now destruct H. }
+    rewrite <- (app_nil_r (u ++ [x])) at 1. rewrite (lex_prefix _ [] Hp). cbn. now rewrite app_nil_r.
+Qed.
+
+(* a line comment ends before the next newline *)
+Lemma lex_line : forall a c b, plain_code a -> no_newline c ->
+  lex_spec (a ++ [47; 47] ++ c ++ [10] ++ b) =
+  after (a ++ [47; 47] ++ c ++ [10]) (a ++ blanks ([47; 47] ++ c) ++ [10]) (lex_spec b).
+Proof.
+  intros a c b Hp Hn.
+  replace (a ++ [47; 47] ++ c ++ [10] ++ b) with ((a ++ [47; 47] ++ c ++ [10]) ++ b)
+    by (now rewrite <- !app_assoc).
+  unfold lex_spec at 1. rewrite lex_from_app, after_put_shift.
+  rewrite !state_after_app, !output_after_app.
+  destruct (plain_code_run a 0%nat Hp) as (-> & ->).
+  cbn [state_after output_after dstep fst snd N.eqb Pos.eqb app].
+  match goal with |- context [state_after DLine ?o c] => destruct (no_newline_run c o Hn) as (E1 & E2) end.
+  rewrite E1, E2. cbn [state_after output_after dstep fst snd N.eqb Pos.eqb app].
+  cbn [Nat.add]. rewrite lex_code_shift. reflexivity.
+Qed.
+
+(* ... or at the end of the input *)
+Lemma lex_line_eof : forall a c, plain_code a -> no_newline c ->
+  lex_spec (a ++ [47; 47] ++ c) = Ok (a ++ blanks ([47; 47] ++ c)).
+Proof.
+  intros a c Hp Hn. unfold lex_spec. rewrite lex_from_finish.
+  rewrite !state_after_app, !output_after_app.
+  destruct (plain_code_run a 0%nat Hp) as (-> & ->).
+  cbn [state_after output_after dstep fst snd N.eqb Pos.eqb app].
+  match goal with |- context [state_after DLine ?o c] => destruct (no_newline_run c o Hn) as (E1 & E2) end.
+  rewrite E1, E2. cbn [dfinish put]. now rewrite app_nil_r.
+Qed.
+
+(* a block comment ends at the FIRST `*/` after its opener, whatever it contains *)
+Lemma lex_block : forall a c b, plain_code a -> no_close c ->
+  lex_spec (a ++ [47; 42] ++ c ++ [42; 47] ++ b) =
+  after (a ++ [47; 42] ++ c ++ [42; 47]) (a ++ blanks ([47; 42] ++ c ++ [42; 47])) (lex_spec b).
+Proof.
+  intros a c b Hp Hn.
+  replace (a ++ [47; 42] ++ c ++ [42; 47] ++ b) with ((a ++ [47; 42] ++ c ++ [42; 47]) ++ b)
+    by (now rewrite <- !app_assoc).
+  unfold lex_spec at 1. rewrite lex_from_app, after_put_shift.
+  rewrite !state_after_app, !output_after_app.
+  destruct (plain_code_run a 0%nat Hp) as (-> & ->).
+  cbn [state_after output_after dstep fst snd N.eqb Pos.eqb app].
+  assert (Hh : forall o, DBlock o = DStar o -> forall r, c <> 47 :: r) by (intros ? H; discriminate H).
+  match goal with |- context [state_after (DBlock ?o) ?off c] =>
+    destruct (no_close_run c o (DBlock o) off (or_introl eq_refl : in_block o (DBlock o)) (Hh o) Hn) as (E1 & E2) end.
+  rewrite E2. cbn [Nat.add] in *.
+  assert (B : blanks (47 :: 42 :: c ++ [42; 47]) = 32 :: 32 :: blanks c ++ [32; 32])
+    by (cbn [blanks flat_map]; fold (blanks (c ++ [42; 47])); rewrite blanks_app; reflexivity).
+  rewrite B. destruct E1 as [E1|E1]; rewrite E1; cbn [dstep fst snd N.eqb Pos.eqb];
+    rewrite lex_code_shift; reflexivity.
+Qed.
+
+(* a block comment that is never closed: error at the byte offset of its opener *)
+Lemma lex_unclosed : forall a c, plain_code a -> no_close c ->
+  lex_spec (a ++ [47; 42] ++ c) = Err (UnclosedAt (text_bytes a)).
+Proof.
+  intros a c Hp Hn. unfold lex_spec. rewrite lex_from_finish.
+  rewrite !state_after_app, !output_after_app.
+  destruct (plain_code_run a 0%nat Hp) as (-> & ->).
+  cbn [state_after output_after dstep fst snd N.eqb Pos.eqb app].
+  assert (Hh : forall o, DBlock o = DStar o -> forall r, c <> 47 :: r) by (intros ? H; discriminate H).
+  match goal with |- context [state_after (DBlock ?o) ?off c] =>
+    destruct (no_close_run c o (DBlock o) off (or_introl eq_refl : in_block o (DBlock o)) (Hh o) Hn) as (E1 & E2) end.
+  cbn [Nat.add] in *. destruct E1 as [-> | ->]; reflexivity.
+Qed.
+
+(* --- the five shapes cover every string --- *)
+
+Lemma split_first_newline : forall l,
+  no_newline l \/ exists c b, no_newline c /\ l = c ++ [10] ++ b.
+Proof.
+  induction l as [|x r IH]; [left; intros []|].
+  destruct (N.eq_dec x 10) as [->|Hx].
+  - right. exists [], r. split; [intros []|reflexivity].
+  - destruct IH as [Hn|(c & b & Hn & ->)].
+    + left. intros [H|H]; [now apply Hx|now apply Hn].
+    + right. exists (x :: c), b. split; [|reflexivity]. intros [H|H]; [now apply Hx|now apply Hn].
+Qed.
+
+Lemma split_first_close : forall l,
+  no_close l \/ exists c b, no_close c /\ l = c ++ [42; 47] ++ b.
+Proof.
+  induction l as [|x r IH]; [left; apply has_pair_nil|].
+  destruct (N.eq_dec x 42) as [->|Hx].
+  - destruct r as [|y r'].
+    + left. intro H. apply has_pair_cons in H. destruct H as [(_ & r'' & H)|H]; [discriminate|].
+      now apply has_pair_nil in H.
+    + destruct (N.eq_dec y 47) as [->|Hy].
+      * right. exists [], r'. split; [apply has_pair_nil|reflexivity].
+      * destruct IH as [Hn|(c & b & Hn & E)].
+        -- left. intro H. apply has_pair_cons in H. destruct H as [(_ & r'' & H)|H].
+           ++ injection H as -> _. now apply Hy.
+           ++ now apply Hn.
+        -- right. exists (42 :: c), b. split; [|now rewrite E].
+           intro H. apply has_pair_cons in H. destruct H as [(_ & r'' & H)|H]; [|now apply Hn].
+           subst c. injection E as -> _. now apply Hy.
+  - destruct IH as [Hn|(c & b & Hn & ->)].
+    + left. intro H. apply has_pair_cons in H. destruct H as [(H & _)|H]; [now apply Hx|now apply Hn].
+    + right. exists (x :: c), b. split; [|reflexivity].
+      intro H. apply has_pair_cons in H. destruct H as [(H & _)|H]; [now apply Hx|now apply Hn].
+Qed.
+
+(* first comment opener: code before it, or no opener at all *)
+Lemma split_first_opener : forall l,
+  (~ has_pair 47 47 l /\ ~ has_pair 47 42 l) \/
+  exists a x rest, plain_code a /\ (x = 47 \/ x = 42) /\ l = a ++ [47; x] ++ rest.
+Proof.
+  induction l as [|c r IH]; [left; split; apply has_pair_nil|].
+  destruct (N.eq_dec c 47) as [->|Hc].
+  - destruct r as [|y r'].
+    + left. split; intro H; apply has_pair_cons in H; destruct H as [(_ & r'' & H)|H];
+        try discriminate; now apply has_pair_nil in H.
+    + destruct (N.eq_dec y 47) as [->|Hy47].
+      { right. exists [], 47, r'. repeat split; try apply has_pair_nil.
+        - intros (u & H). destruct u; discriminate.
+        - now left. }
+      destruct (N.eq_dec y 42) as [->|Hy42].
+      { right. exists [], 42, r'. repeat split; try apply has_pair_nil.
+        - intros (u & H). destruct u; discriminate.
+        - now right. }
+      destruct IH as [(H1 & H2)|(a & x & rest & Hp & Hx & E)].
+      * left. split; intro H; apply has_pair_cons in H; destruct H as [(_ & r'' & H)|H]; auto;
+          injection H as -> _; auto.
+      * right. exists (47 :: a), x, rest. split; [|split; [assumption|now rewrite E]].
+        destruct Hp as (P1 & P2 & P3).
+        assert (Ha : a <> []).
+        { intros ->. simpl in E. injection E as -> _. now apply Hy47. }
+        destruct a as [|a0 a']; [now destruct Ha|]. simpl in E. injection E as <- E.
+        repeat split.
+        -- intro H. apply has_pair_cons in H. destruct H as [(_ & r'' & H)|H]; [|now apply P1].
+           injection H as -> _. now apply Hy47.
+        -- intro H. apply has_pair_cons in H. destruct H as [(_ & r'' & H)|H]; [|now apply P2].
+           injection H as -> _. now apply Hy42.
+        -- intro H. apply (proj1 (ends_with_cons 47 47 (y :: a') ltac:(discriminate))) in H. now apply P3.
+  - destruct IH as [(H1 & H2)|(a & x & rest & Hp & Hx & ->)].
+    + left. split; intro H; apply has_pair_cons in H; destruct H as [(H & _)|H]; auto.
+    + right. exists (c :: a), x, rest. split; [|split; [assumption|reflexivity]].
+      destruct Hp as (P1 & P2 & P3). repeat split.
+      * intro H. apply has_pair_cons in H. destruct H as [(H & _)|H]; auto.
+      * intro H. apply has_pair_cons in H. destruct H as [(H & _)|H]; auto.
+      * destruct a as [|a0 a'].
+        -- intros (u & H). destruct u as [|u0 u']; simpl in H.
+           ++ injection H as ->. now apply Hc.
+           ++ injection H as _ H. destruct u'; discriminate.
+        -- intro H. apply (proj1 (ends_with_cons 47 c (a0 :: a') ltac:(discriminate))) in H. now apply P3.
+Qed.
+
+Theorem lex_decompose : forall s,
+  (~ has_pair 47 47 s /\ ~ has_pair 47 42 s) \/
+  (exists a c, plain_code a /\ no_newline c /\ s = a ++ [47; 47] ++ c) \/
+  (exists a c b, plain_code a /\ no_newline c /\ s = a ++ [47; 47] ++ c ++ [10] ++ b) \/
+  (exists a c b, plain_code a /\ no_close c /\ s = a ++ [47; 42] ++ c ++ [42; 47] ++ b) \/
+  (exists a c, plain_code a /\ no_close c /\ s = a ++ [47; 42] ++ c).
+Proof.
+  intro s. destruct (split_first_opener s) as [H|(a & x & rest & Hp & [->| ->] & ->)]; [now left|..].
+  - destruct (split_first_newline rest) as [Hn|(c & b & Hn & ->)].
+    + right; left. now exists a, rest.
+    + right; right; left. now exists a, c, b.
+  - destruct (split_first_close rest) as [Hn|(c & b & Hn & ->)].
+    + right; right; right; right. now exists a, rest.
+    + right; right; right; left. now exists a, c, b.
+Qed.
+
+(* ------------------------------------------------------------------ *)
+(* the unclosed-comment error                                          *)
+(* ------------------------------------------------------------------ *)
+
+Lemma put_err : forall out m e, put out m = Err e <-> m = Err e.
+Proof. intros out [t|e'|s|] e; simpl; split; intro H; try discriminate; assumption. Qed.
+
+Lemma UnclosedAt_inj : forall a b, UnclosedAt a = UnclosedAt b -> a = b.
+Proof. intros a b H. injection H as H. now apply Nat2Z.inj. Qed.
+
+Lemma lex_unclosed_iff : forall s o,
+  lex_spec s = Err (UnclosedAt o) <-> open_block_at_end s o.
+Proof.
+  intros s o. unfold lex_spec, open_block_at_end. rewrite lex_from_finish, put_err.
+  destruct (state_after DCode 0 s) as [|a| |o'|o']; cbn [dfinish]; split; intro H;
+    try discriminate; try (destruct H; discriminate).
+  - injection H as H. apply Nat2Z.inj in H. subst. now left.
+  - destruct H as [H|H]; [injection H as ->; reflexivity|discriminate].
+  - injection H as H. apply Nat2Z.inj in H. subst. now right.
+  - destruct H as [H|H]; [discriminate|injection H as ->; reflexivity].
+Qed.
+
+(* the only failure mode is the unclosed comment *)
+Lemma lex_total : forall s,
+  (exists t, lex_spec s = Ok t) \/ exists o, lex_spec s = Err (UnclosedAt o).
+Proof.
+  intro s. unfold lex_spec. rewrite lex_from_finish.
+  destruct (state_after DCode 0 s); cbn [dfinish put]; eauto.
+Qed.
+
+(* where the error is: at the first byte of a `/*` that follows comment-free
+   code ... or an earlier closed comment; stated for the whole file: *)
+Lemma lex_error_at_opener : forall s o,
+  lex_spec s = Err (UnclosedAt o) ->
+  exists a c, s = a ++ [47; 42] ++ c /\ o = text_bytes a /\ no_close c.
+Proof.
+  intros s. remember (length s) as n eqn:Hlen. revert s Hlen.
+  induction n as [n IH] using lt_wf_ind. intros s Hlen o Herr.
+  destruct (lex_decompose s) as [(H1 & H2)|[(a & c & Hp & Hn & ->)|[(a & c & b & Hp & Hn & ->)|
+    [(a & c & b & Hp & Hn & ->)|(a & c & Hp & Hn & ->)]]]].
+  - rewrite (lex_plain s H1 H2) in Herr. discriminate.
+  - rewrite (lex_line_eof a c Hp Hn) in Herr. discriminate.
+  - rewrite (lex_line a c b Hp Hn) in Herr.
+    destruct (lex_total b) as [(t & E)|(o' & E)]; rewrite E in Herr; [discriminate|].
+    cbn [after UnclosedAt] in Herr.
+    destruct (IH (length b)) with (s := b) (o := o') as (a' & c' & -> & -> & Hc'); auto.
+    { subst n. rewrite !app_length. simpl. lia. }
+    exists ((a ++ [47; 47] ++ c ++ [10]) ++ a'), c'. repeat split; try assumption.
+    + now rewrite <- !app_assoc.
+    + unfold UnclosedAt in Herr. injection Herr as Herr. rewrite text_bytes_app.
+      apply Nat2Z.inj. rewrite Nat2Z.inj_add. symmetry. exact Herr.
+  - rewrite (lex_block a c b Hp Hn) in Herr.
+    destruct (lex_total b) as [(t & E)|(o' & E)]; rewrite E in Herr; [discriminate|].
+    cbn [after UnclosedAt] in Herr.
+    destruct (IH (length b)) with (s := b) (o := o') as (a' & c' & -> & -> & Hc'); auto.
+    { subst n. rewrite !app_length. simpl. lia. }
+    exists ((a ++ [47; 42] ++ c ++ [42; 47]) ++ a'), c'. repeat split; try assumption.
+    + now rewrite <- !app_assoc.
+    + unfold UnclosedAt in Herr. injection Herr as Herr. rewrite text_bytes_app.
+      apply Nat2Z.inj. rewrite Nat2Z.inj_add. symmetry. exact Herr.
+  - rewrite (lex_unclosed a c Hp Hn) in Herr. injection Herr as Herr. apply Nat2Z.inj in Herr. subst o.
+    now exists a, c.
+Qed.
+
+(* ------------------------------------------------------------------ *)
+(* positions: the output is the input with comment scalars blanked     *)
+(* (the pre-processor clauses of C04)                                  *)
+(* ------------------------------------------------------------------ *)
+
+Lemma blanked_refl : forall s, blanked s s.
+Proof. induction s; constructor; assumption. Qed.
+
+Lemma blanked_blanks : forall s, blanked s (blanks s).
+Proof. induction s as [|c r IH]; [constructor|]. rewrite blanks_cons. now constructor. Qed.
+
+Lemma blanked_app : forall a a' b b', blanked a a' -> blanked b b' -> blanked (a ++ b) (a' ++ b').
+Proof.
+  intros a a' b b' Ha Hb. induction Ha; simpl; [assumption| |].
+  - now constructor.
+  - rewrite <- app_assoc. now constructor.
+Qed.
+
+Lemma text_bytes_spaces : forall n, text_bytes (spaces n) = n.
+Proof. induction n as [|n IH]; [reflexivity|]. change (spaces (S n)) with (32 :: spaces n).
+  rewrite text_bytes_cons, IH. reflexivity. Qed.
+
+Lemma blanked_bytes : forall s t, blanked s t -> text_bytes t = text_bytes s.
+Proof.
+  intros s t H. induction H; [reflexivity| |].
+  - rewrite !text_bytes_cons. lia.
+  - rewrite text_bytes_app, text_bytes_spaces, text_bytes_cons. lia.
+Qed.
+
+Lemma blanked_split : forall s t, blanked s t -> forall u v, s = u ++ v ->
+  exists u' v', t = u' ++ v' /\ blanked u u' /\ blanked v v'.
+Proof.
+  intros s t H. induction H as [|c s t H IH|c s t H IH]; intros u v E.
+  - destruct u; [|discriminate]. destruct v; [|discriminate]. exists [], []. repeat split; constructor.
+  - destruct u as [|c' u].
+    + simpl in E. subst v. exists [], (c :: t). repeat split; constructor. assumption.
+    + simpl in E. injection E as <- E. destruct (IH u v E) as (u' & v' & -> & Hu & Hv).
+      exists (c :: u'), v'. repeat split; try assumption. now constructor.
+  - destruct u as [|c' u].
+    + simpl in E. subst v. exists [], (spaces (scalar_bytes c) ++ t). repeat split; constructor. assumption.
+    + simpl in E. injection E as <- E. destruct (IH u v E) as (u' & v' & -> & Hu & Hv).
+      exists (spaces (scalar_bytes c) ++ u'), v'. repeat split; try assumption.
+      * now rewrite app_assoc.
+      * now constructor.
+Qed.
+
+(* every scalar boundary of the file is a scalar boundary of the text *)
+Lemma blanked_boundary : forall s t o, blanked s t -> boundary s o -> boundary t o.
+Proof.
+  intros s t o H (u & v & E & <-). destruct (blanked_split s t H u v E) as (u' & v' & -> & Hu & _).
+  exists u', v'. split; [reflexivity|]. now apply blanked_bytes.
+Qed.
+
+Lemma spaces_prefix : forall k t0 u c v, spaces k ++ t0 = u ++ c :: v -> c <> 32 ->
+  exists u1, u = spaces k ++ u1 /\ t0 = u1 ++ c :: v.
+Proof.
+  induction k as [|k IH]; intros t0 u c v E Hc.
+  - now exists u.
+  - change (spaces (S k)) with (32 :: spaces k) in *. destruct u as [|x u]; simpl in E.
+    + injection E as E _. now destruct Hc.
+    + injection E as <- E. destruct (IH t0 u c v E Hc) as (u1 & -> & ->). now exists u1.
+Qed.
+
+(* every non-blank scalar of the text is that scalar of the file, at the same
+   byte offset *)
+Lemma blanked_scalar_at : forall s t, blanked s t -> forall o c,
+  scalar_at t o c -> c <> 32 -> scalar_at s o c.
+Proof.
+  intros s t H. induction H as [|c0 s t H IH|c0 s t H IH]; intros o c (u & v & E & Ho) Hc.
+  - destruct u; discriminate.
+  - destruct u as [|x u]; simpl in E; injection E as -> E.
+    + exists [], s. split; [reflexivity|assumption].
+    + destruct (IH (text_bytes u) c) as (u' & v' & -> & Hu'); [now exists u, v|assumption|].
+      exists (x :: u'), v'. split; [reflexivity|]. rewrite text_bytes_cons in *. lia.
+  - destruct (spaces_prefix _ _ _ _ _ E Hc) as (u1 & -> & E1).
+    destruct (IH (text_bytes u1) c) as (u' & v' & -> & Hu'); [now exists u1, v|assumption|].
+    exists (c0 :: u'), v'. split; [reflexivity|].
+    rewrite text_bytes_app, text_bytes_spaces in Ho. rewrite text_bytes_cons. lia.
+Qed.
+
+Lemma blanked_line_shape : forall a c b t', blanked b t' ->
+  blanked (a ++ [47; 47] ++ c ++ [10] ++ b) ((a ++ blanks ([47; 47] ++ c) ++ [10]) ++ t').
+Proof.
+  intros a c b t' Hb.
+  replace (a ++ [47; 47] ++ c ++ [10] ++ b) with (a ++ ([47; 47] ++ c) ++ [10] ++ b)
+    by (now rewrite <- !app_assoc).
+  replace ((a ++ blanks ([47; 47] ++ c) ++ [10]) ++ t') with (a ++ blanks ([47; 47] ++ c) ++ [10] ++ t')
+    by (now rewrite <- !app_assoc).
+  apply blanked_app; [apply blanked_refl|].
+  apply blanked_app; [apply blanked_blanks|]. apply blanked_app; [apply blanked_refl|assumption].
+Qed.
+
+Lemma blanked_block_shape : forall a c b t', blanked b t' ->
+  blanked (a ++ [47; 42] ++ c ++ [42; 47] ++ b) ((a ++ blanks ([47; 42] ++ c ++ [42; 47])) ++ t').
+Proof.
+  intros a c b t' Hb.
+  replace (a ++ [47; 42] ++ c ++ [42; 47] ++ b) with (a ++ ([47; 42] ++ c ++ [42; 47]) ++ b)
+    by (now rewrite <- !app_assoc).
+  replace ((a ++ blanks ([47; 42] ++ c ++ [42; 47])) ++ t') with (a ++ blanks ([47; 42] ++ c ++ [42; 47]) ++ t')
+    by (now rewrite <- !app_assoc).
+  apply blanked_app; [apply blanked_refl|].
+  apply blanked_app; [apply blanked_blanks|assumption].
+Qed.
+
+Lemma lex_ok_blanked : forall s t, lex_spec s = Ok t -> blanked s t.
+Proof.
+  intros s. remember (length s) as n eqn:Hlen. revert s Hlen.
+  induction n as [n IH] using lt_wf_ind. intros s Hlen t Hok.
+  destruct (lex_decompose s) as [(H1 & H2)|[(a & c & Hp & Hn & ->)|[(a & c & b & Hp & Hn & ->)|
+    [(a & c & b & Hp & Hn & ->)|(a & c & Hp & Hn & ->)]]]].
+  - rewrite (lex_plain s H1 H2) in Hok. injection Hok as <-. apply blanked_refl.
+  - rewrite (lex_line_eof a c Hp Hn) in Hok. injection Hok as <-.
+    apply blanked_app; [apply blanked_refl|apply blanked_blanks].
+  - rewrite (lex_line a c b Hp Hn) in Hok.
+    destruct (lex_total b) as [(t' & E)|(o' & E)]; rewrite E in Hok; [|discriminate].
+    cbn [after] in Hok. injection Hok as <-.
+    assert (Hb : blanked b t').
+    { apply (IH (length b)) with (s := b); auto. subst n. rewrite !app_length. simpl. lia. }
+    exact (blanked_line_shape a c b t' Hb).
+  - rewrite (lex_block a c b Hp Hn) in Hok.
+    destruct (lex_total b) as [(t' & E)|(o' & E)]; rewrite E in Hok; [|discriminate].
+    cbn [after] in Hok. injection Hok as <-.
+    assert (Hb : blanked b t').
+    { apply (IH (length b)) with (s := b); auto. subst n. rewrite !app_length. simpl. lia. }
+    exact (blanked_block_shape a c b t' Hb).
+  - rewrite (lex_unclosed a c Hp Hn) in Hok. discriminate.
+Qed.
+
+(* ------------------------------------------------------------------ *)
+(* blanking the comments changes nothing                               *)
+(* ------------------------------------------------------------------ *)
+
+Lemma has_pair_in : forall x y l, has_pair x y l -> In x l.
+Proof. intros x y l (u & v & ->). apply in_or_app. right. now left. Qed.
+
+Lemma ends_with_in : forall x l, ends_with x l -> In x l.
+Proof. intros x l (u & ->). apply in_or_app. right. now left. Qed.
+
+Lemma plain_code_no_slash : forall l, ~ In 47 l -> plain_code l.
+Proof.
+  intros l H. repeat split; intro H'; apply H;
+    [apply (has_pair_in _ _ _ H')|apply (has_pair_in _ _ _ H')|apply (ends_with_in _ _ H')].
+Qed.
+
+Lemma in_blanks : forall x l, In x (blanks l) -> x = 32.
+Proof.
+  intros x l. induction l as [|c r IH]; [intros []|]. rewrite blanks_cons. intro H.
+  apply in_app_or in H. destruct H as [H|H]; [|now apply IH].
+  apply repeat_spec in H. assumption.
+Qed.
+
+Lemma plain_code_blanks : forall l, plain_code (blanks l).
+Proof. intro l. apply plain_code_no_slash. intro H. apply in_blanks in H. discriminate. Qed.
+
+Lemma text_bytes_blanks : forall l, text_bytes (blanks l) = text_bytes l.
+Proof. intro l. apply blanked_bytes, blanked_blanks. Qed.
+
+Lemma lex_blanked_line_shape : forall a c t', plain_code a -> lex_spec t' = Ok t' ->
+  lex_spec ((a ++ blanks ([47; 47] ++ c) ++ [10]) ++ t') = Ok ((a ++ blanks ([47; 47] ++ c) ++ [10]) ++ t').
+Proof.
+  intros a c t' Hp Hb.
+  assert (Hnl : plain_code [10]) by (apply plain_code_no_slash; intros [H|[]]; discriminate).
+  rewrite <- !app_assoc. rewrite (lex_prefix a _ Hp), (lex_prefix _ _ (plain_code_blanks _)),
+    (lex_prefix [10] _ Hnl), Hb. reflexivity.
+Qed.
+
+Lemma lex_blanked_block_shape : forall a c t', plain_code a -> lex_spec t' = Ok t' ->
+  lex_spec ((a ++ blanks c) ++ t') = Ok ((a ++ blanks c) ++ t').
+Proof.
+  intros a c t' Hp Hb.
+  rewrite <- !app_assoc. rewrite (lex_prefix a _ Hp), (lex_prefix _ _ (plain_code_blanks _)), Hb.
+  reflexivity.
+Qed.
+
+Lemma lex_idempotent : forall s t, lex_spec s = Ok t -> lex_spec t = Ok t.
+Proof.
+  intros s. remember (length s) as n eqn:Hlen. revert s Hlen.
+  induction n as [n IH] using lt_wf_ind. intros s Hlen t Hok.
+  assert (Hnl : plain_code [10]) by (apply plain_code_no_slash; intros [H|[]]; discriminate).
+  destruct (lex_decompose s) as [(H1 & H2)|[(a & c & Hp & Hn & ->)|[(a & c & b & Hp & Hn & ->)|
+    [(a & c & b & Hp & Hn & ->)|(a & c & Hp & Hn & ->)]]]].
+  - rewrite (lex_plain s H1 H2) in Hok. injection Hok as <-. now apply lex_plain.
+  - rewrite (lex_line_eof a c Hp Hn) in Hok. injection Hok as <-.
+    pose proof (lex_blanked_block_shape a ([47; 47] ++ c) [] Hp eq_refl) as H. rewrite !app_nil_r in H. exact H.
+  - rewrite (lex_line a c b Hp Hn) in Hok.
+    destruct (lex_total b) as [(t' & E)|(o' & E)]; rewrite E in Hok; [|discriminate].
+    cbn [after] in Hok. injection Hok as <-.
+    assert (Hb : lex_spec t' = Ok t').
+    { apply (IH (length b)) with (s := b); auto. subst n. rewrite !app_length. simpl. lia. }
+    exact (lex_blanked_line_shape a c t' Hp Hb).
+  - rewrite (lex_block a c b Hp Hn) in Hok.
+    destruct (lex_total b) as [(t' & E)|(o' & E)]; rewrite E in Hok; [|discriminate].
+    cbn [after] in Hok. injection Hok as <-.
+    assert (Hb : lex_spec t' = Ok t').
+    { apply (IH (length b)) with (s := b); auto. subst n. rewrite !app_length. simpl. lia. }
+    exact (lex_blanked_block_shape a ([47; 42] ++ c ++ [42; 47]) t' Hp Hb).
+  - rewrite (lex_unclosed a c Hp Hn) in Hok. discriminate.
+Qed.
+
+(* the whole file with its comments blanked out gives the same parser input *)
+Lemma lex_blank_invariant : forall s, lex_spec (blank_comments s) = lex_spec s.
+Proof.
+  intro s. unfold blank_comments. destruct (lex_spec s) as [t| | |] eqn:E; try assumption.
+  now apply lex_idempotent with (s := s).
+Qed.
+
+(* ANY single comment replaced by blanks of the same byte length, the rest of
+   the file (other comments included) left alone: same parser input, same error *)
+Lemma lex_one_block_comment_blanked : forall a c b, plain_code a -> block_comment c ->
+  lex_spec (a ++ blanks c ++ b) = lex_spec (a ++ c ++ b).
+Proof.
+  intros a c b Hp (body & Hn & ->).
+  replace (a ++ ([47; 42] ++ body ++ [42; 47]) ++ b) with (a ++ [47; 42] ++ body ++ [42; 47] ++ b)
+    by (now rewrite <- !app_assoc).
+  rewrite (lex_block a body b Hp Hn), (lex_prefix a _ Hp), (lex_prefix _ b (plain_code_blanks _)).
+  destruct (lex_spec b) as [t|[| |z]|s|]; cbn [after]; try reflexivity.
+  - now rewrite <- app_assoc.
+  - rewrite text_bytes_blanks, (text_bytes_app a), Nat2Z.inj_add, Z.add_assoc. reflexivity.
+Qed.
+
+Lemma lex_one_line_comment_blanked : forall a c b, plain_code a -> line_comment c ->
+  (b = [] \/ exists b', b = 10 :: b') ->
+  lex_spec (a ++ blanks c ++ b) = lex_spec (a ++ c ++ b).
+Proof.
+  intros a c b Hp (body & Hn & ->) Hb.
+  rewrite (lex_prefix a _ Hp), (lex_prefix _ b (plain_code_blanks _)).
+  destruct Hb as [->|(b' & ->)].
+  - rewrite !app_nil_r. rewrite (lex_line_eof a body Hp Hn).
+    change (lex_spec []) with (Ok (@nil N)). cbn [after]. now rewrite app_nil_r.
+  - replace (a ++ ([47; 47] ++ body) ++ 10 :: b') with (a ++ [47; 47] ++ body ++ [10] ++ b')
+      by (now rewrite <- !app_assoc).
+    rewrite (lex_line a body b' Hp Hn).
+    assert (Hnl : plain_code [10]) by (apply plain_code_no_slash; intros [H|[]]; discriminate).
+    change (10 :: b') with ([10] ++ b'). rewrite (lex_prefix [10] b' Hnl).
+    destruct (lex_spec b') as [t|[| |z]|s|]; cbn [after]; try reflexivity.
+    + now rewrite <- !app_assoc.
+    + rewrite text_bytes_blanks, !text_bytes_app. do 2 f_equal. cbn [text_bytes fold_right]. lia.
+Qed.
+
+(* ------------------------------------------------------------------ *)
+(* the same facts for the mirror of the Rust function                  *)
+(* ------------------------------------------------------------------ *)
+
+Lemma unclosed_UnclosedAt : forall o, unclosed o = UnclosedAt o.
+Proof. reflexivity. Qed.
+
+Theorem preprocess_length : forall s t, preprocess s = Ok t -> text_bytes t = text_bytes s.
+Proof. intros s t H. rewrite preprocess_refines_lexer in H. now apply blanked_bytes, lex_ok_blanked. Qed.
+
+Theorem preprocess_blanked : forall s t, preprocess s = Ok t -> blanked s t.
+Proof. intros s t H. rewrite preprocess_refines_lexer in H. now apply lex_ok_blanked. Qed.
+
+Theorem preprocess_boundaries : forall s t o, preprocess s = Ok t -> boundary s o -> boundary t o.
+Proof. intros s t o H. apply blanked_boundary. now apply preprocess_blanked. Qed.
+
+Theorem preprocess_scalar_positions : forall s t o c,
+  preprocess s = Ok t -> scalar_at t o c -> c <> 32 -> scalar_at s o c.
+Proof. intros s t o c H. apply blanked_scalar_at. now apply preprocess_blanked. Qed.
+
+Theorem unclosed_comment_iff_open_block : forall s o,
+  preprocess s = Err (unclosed o) <-> open_block_at_end s o.
+Proof. intros s o. rewrite preprocess_refines_lexer. apply lex_unclosed_iff. Qed.
+
+Theorem unclosed_comment_location_is_byte_offset_of_opener : forall s o,
+  preprocess s = Err (unclosed o) ->
+  exists a c, s = a ++ [47; 42] ++ c /\ o = text_bytes a /\ no_close c.
+Proof. intros s o H. rewrite preprocess_refines_lexer in H. now apply lex_error_at_opener. Qed.
+
+Theorem preprocess_total : forall s,
+  (exists t, preprocess s = Ok t) \/ exists o, preprocess s = Err (unclosed o).
+Proof. intro s. rewrite preprocess_refines_lexer. apply lex_total. Qed.
+
+Theorem blank_invariant : forall s, preprocess (blank_comments s) = preprocess s.
+Proof. intro s. rewrite !preprocess_refines_lexer. apply lex_blank_invariant. Qed.
+
+Theorem code_after_block_comment_kept : forall c s, block_comment c ->
+  preprocess (c ++ s) = after c (blanks c) (preprocess s).
+Proof.
+  intros c s (body & Hn & ->). rewrite !preprocess_refines_lexer.
+  assert (Hp : plain_code []) by (apply plain_code_no_slash; intros []).
+  pose proof (lex_block [] body s Hp Hn) as H. cbn [app] in H.
+  replace (([47; 42] ++ body ++ [42; 47]) ++ s) with (47 :: 42 :: body ++ [42; 47] ++ s)
+    by (cbn [app]; now rewrite <- !app_assoc).
+  exact H.
+Qed.
+
+Theorem code_after_line_comment_kept : forall c s, line_comment c ->
+  preprocess (c ++ [10] ++ s) = after (c ++ [10]) (blanks c ++ [10]) (preprocess s).
+Proof.
+  intros c s (body & Hn & ->). rewrite !preprocess_refines_lexer.
+  assert (Hp : plain_code []) by (apply plain_code_no_slash; intros []).
+  pose proof (lex_line [] body s Hp Hn) as H. cbn [app] in H.
+  cbn [app] in *. exact H.
+Qed.
+
+(* the label range start .. start + 2 of the report lies inside the file, on
+   scalar boundaries, and covers exactly the two bytes of the opener *)
+Theorem unclosed_comment_range_valid : forall s o,
+  preprocess s = Err (unclosed o) ->
+  scalar_at s o 47 /\ scalar_at s (o + 1) 42 /\
+  boundary s o /\ boundary s (o + 2) /\ (o + 2 <= text_bytes s)%nat.
+Proof.
+  intros s o H. destruct (unclosed_comment_location_is_byte_offset_of_opener s o H) as (a & c & -> & -> & _).
+  repeat split.
+  - now exists a, (42 :: c).
+  - exists (a ++ [47]), c. split; [now rewrite <- app_assoc|]. rewrite text_bytes_app. reflexivity.
+  - now exists a, ([47; 42] ++ c).
+  - exists (a ++ [47; 42]), c. split; [now rewrite <- app_assoc|]. rewrite text_bytes_app. reflexivity.
+  - rewrite !text_bytes_app. cbn [text_bytes fold_right scalar_bytes N.leb N.compare Pos.compare Pos.compare_cont]. lia.
+Qed.
+
+(* the declarative lemmas, for the mirror *)
+Theorem preprocess_plain : forall s, ~ has_pair 47 47 s -> ~ has_pair 47 42 s -> preprocess s = Ok s.
+Proof. intros s. rewrite preprocess_refines_lexer. apply lex_plain. Qed.
+
+Theorem preprocess_line_comment : forall a c b, plain_code a -> no_newline c ->
+  preprocess (a ++ [47; 47] ++ c ++ [10] ++ b) =
+  after (a ++ [47; 47] ++ c ++ [10]) (a ++ blanks ([47; 47] ++ c) ++ [10]) (preprocess b).
+Proof. intros a c b. rewrite !preprocess_refines_lexer. apply lex_line. Qed.
+
+Theorem preprocess_line_comment_eof : forall a c, plain_code a -> no_newline c ->
+  preprocess (a ++ [47; 47] ++ c) = Ok (a ++ blanks ([47; 47] ++ c)).
+Proof. intros a c. rewrite !preprocess_refines_lexer. apply lex_line_eof. Qed.
+
+Theorem preprocess_block_comment : forall a c b, plain_code a -> no_close c ->
+  preprocess (a ++ [47; 42] ++ c ++ [42; 47] ++ b) =
+  after (a ++ [47; 42] ++ c ++ [42; 47]) (a ++ blanks ([47; 42] ++ c ++ [42; 47])) (preprocess b).
+Proof. intros a c b. rewrite !preprocess_refines_lexer. apply lex_block. Qed.
+
+Theorem preprocess_unclosed_comment : forall a c, plain_code a -> no_close c ->
+  preprocess (a ++ [47; 42] ++ c) = Err (unclosed (text_bytes a)).
+Proof. intros a c. rewrite !preprocess_refines_lexer. apply lex_unclosed. Qed.
+
+Theorem one_block_comment_blanked : forall a c b, plain_code a -> block_comment c ->
+  preprocess (a ++ blanks c ++ b) = preprocess (a ++ c ++ b).
+Proof. intros a c b. rewrite !preprocess_refines_lexer. apply lex_one_block_comment_blanked. Qed.
+
+Theorem one_line_comment_blanked : forall a c b, plain_code a -> line_comment c ->
+  (b = [] \/ exists b', b = 10 :: b') ->
+  preprocess (a ++ blanks c ++ b) = preprocess (a ++ c ++ b).
+Proof. intros a c b. rewrite !preprocess_refines_lexer. apply lex_one_line_comment_blanked. Qed.
